@@ -22,7 +22,7 @@ RULE = (
     "Non-trivial: an edit or read at an off-grid time with width>1."
 )
 ASSUMPTIONS = [
-    "times whose t*rate is within 1e-6 of a .5 tie are skipped (round() is half-even, float product rounding)",
+    "times whose t*rate is within 1e-9 of a .5 tie are skipped (round() is half-even; the float product t*rate is off by at most ~1e-13 here)",
     "QueryWav at off-grid times: a contiguous run starting at the nearest index whose length is within 1 of the model's "
     "(its length rule round(rate*(t1-t0)) is not pinned by the statement); on-grid: exact",
     "deleteSegment/getFrames are called with start<=end",
@@ -38,7 +38,7 @@ def nearest(t, rate):
     x = Fraction(t) * rate
     fl = x.numerator // x.denominator
     frac = x - fl
-    tie = abs(frac - Fraction(1, 2)) < Fraction(1, 10**6)
+    tie = abs(frac - Fraction(1, 2)) < Fraction(1, 10**9)
     return (fl + 1 if frac > Fraction(1, 2) else fl), tie
 
 
@@ -94,6 +94,7 @@ def run_history(case):
             raise Violation("duration", f"{what}: duration {wav.duration} != {len(model)}/{rate}")
 
     check_state("initial")
+    watched = []
     for k, op in enumerate(case["ops"]):
         kind = op["op"]
         what = f"step {k} {op}"
@@ -164,8 +165,13 @@ def run_history(case):
                 if (sub.sampleWidth, sub.frameRate, sub.nchannels) != (width, rate, 1):
                     raise Violation("params", f"{what}: subwav parameters changed")
                 if op.get("adopt"):
+                    watched.append((wav, list(model)))  # the source stays what it was while the sub-wav is edited further
                     wav = sub
                     model = model[i:j]
+                else:
+                    sub.concatenate(to_bytes([1, -1], width))  # editing the copy; the source is compared below
+                    if j - i == len(model):
+                        cl.add("subwav_of_everything_then_edited")
                 cl.add("subwav")
                 if wide_off:
                     cl.add("offgrid_edit_wide")
@@ -231,6 +237,9 @@ def run_history(case):
             wav = w2
             cl.add("reopen")
         check_state(what)
+        for old, samples0 in watched:
+            if from_bytes(old.frames, width) != samples0:
+                raise Violation("source-changed-through-subwav", f"{what}: a Wav that getSubwav was taken from changed when the sub-wav was edited")
     return {"classes": sorted(cl), "nontrivial": "offgrid_edit_wide" in cl}
 
 
@@ -239,7 +248,7 @@ def sample_values(width):
     return st.one_of(st.integers(lo, hi), st.sampled_from([lo, hi, 0, 1, -1]), st.integers(-100, 100))
 
 
-FRACS = st.sampled_from([0.0, 0.0, 0.0, 0.1, -0.1, 0.25, -0.25, 0.4, -0.4, 0.45, -0.45])
+FRACS = st.sampled_from([0.0, 0.0, 0.0, 0.1, -0.1, 0.25, -0.25, 0.4, -0.4, 0.45, -0.45, 0.4999998, -0.4999998, 0.49999, -0.49999])
 
 
 def time_spec():
@@ -267,6 +276,8 @@ def histories(draw):
             op["fill"] = draw(sv)
         if kind in ("delete", "replace", "subwav", "get"):
             op["t0"], op["t1"] = draw(time_spec()), draw(time_spec())
+        if kind == "subwav" and draw(st.integers(0, 2)) == 0:
+            op["t0"], op["t1"] = [0, 0.0], [-1, 0.0]  # the whole recording (selector -1 = last position)
         if kind == "subwav":
             op["adopt"] = draw(st.booleans())
         if kind == "reopen":
